@@ -25,8 +25,25 @@ ORD = "model.htn.ordering"
 
 def run(idx: Index, rep: Report, tier: str) -> None:
     rep.explanation = __doc__.strip()
+    from ..roles import returned_names, with_roles
+
     f = idx.func(ORD + ".ordering")
     rep.note_function(f.qualname)
+    # roles in ordering(): the constraint being translated, its two sides, the list of extracted pairs, the verdict
+    roles = {}
+    for l in walk_no_nested(f.node):
+        if isinstance(l, ast.For) and isinstance(l.target, ast.Name) and isinstance(l.iter, ast.Name) and l.iter.id in f.params():
+            roles[l.target.id] = "c"
+            cvar = l.target.id
+            for a in ast.walk(l):
+                if isinstance(a, ast.Assign) and isinstance(a.targets[0], ast.Name) and isinstance(a.value, ast.Call) and call_name(a.value) == "arg" and norm(a.value.func.value) == cvar and a.value.args and isinstance(a.value.args[0], ast.Constant):
+                    roles.setdefault(a.targets[0].id, "lhs" if a.value.args[0].value == 0 else "rhs")
+                if isinstance(a, ast.Call) and call_name(a) == "append" and isinstance(a.func.value, ast.Name) and a.args and isinstance(a.args[0], ast.Tuple) and len(a.args[0].elts) == 2:
+                    roles.setdefault(a.func.value.id, "precedences")
+    for a in walk_no_nested(f.node):
+        if isinstance(a, ast.Assign) and isinstance(a.targets[0], ast.Name) and isinstance(a.value, ast.Compare) and all(isinstance(x, ast.Call) and call_name(x) == "len" for x in [a.value.left] + a.value.comparators):
+            roles.setdefault(a.targets[0].id, "qualitative")
+    f = with_roles(f, roles)
     cfg = cfg_of(f)
     rule1 = "C34.1 T2 precedence-filters"
     apps = [(n, c) for n, c in cfg_nodes_with_call(cfg, "append") if norm(c.func.value) == "precedences"]
@@ -89,6 +106,21 @@ def run(idx: Index, rep: Report, tier: str) -> None:
     rule3 = "C34.3 total-order-unique"
     b = idx.func(ORD + "._build_total_order")
     rep.note_function(b.qualname)
+    broles = {}
+    bparams = b.params()
+    for a in walk_no_nested(b.node):
+        if isinstance(a, ast.Assign) and isinstance(a.targets[0], ast.Name):
+            t, v = a.targets[0].id, a.value
+            if isinstance(v, ast.Call) and call_name(v) == "copy" and isinstance(v.func.value, ast.Name) and v.func.value.id in bparams:
+                broles.setdefault(t, "pending_tasks" if v.func.value.id == bparams[0] else "pending_precedences")
+            elif isinstance(v, ast.ListComp) and any(isinstance(x, ast.Call) and call_name(x) == "all" for x in ast.walk(v)):
+                broles.setdefault(t, "firsts")
+    for a in walk_no_nested(b.node):
+        if isinstance(a, ast.Assign) and isinstance(a.targets[0], ast.Name) and isinstance(a.value, ast.Subscript) and norm(a.value.value) in broles and broles[norm(a.value.value)] == "firsts":
+            broles.setdefault(a.targets[0].id, "first")
+    for r in returned_names(b.node):
+        broles.setdefault(r, "order")
+    b = with_roles(b, broles)
     bc = cfg_of(b)
     tests = [t for t in bc.nodes if t.kind == "test" and norm(t.ast) == "len(firsts) != 1"]
     ok = bool(tests) and all(any(isinstance(s, ast.Return) and isinstance(s.value, ast.Constant) and s.value.value is None for s in t.owner.body) for t in tests)
